@@ -655,6 +655,18 @@ func layFontBytesVar(base string, cm map[uint16]glyph.ID, kernData []byte, varia
 			tabs["GSUB"] = layEmptyGtab
 		case "gpos":
 			tabs["GPOS"] = layEmptyGtab
+		case "cmxF10", "cmxF13", "cmxF8", "cmxF2", "cmxTrunc12", "cmxF10at04":
+			// a higher-ranked cmap subtable the library cannot decode, next to the good ones
+			tbl, err := cmap.Decode(tabs["cmap"])
+			if err != nil {
+				panic(err)
+			}
+			key := cmap.Key{PlatformID: 3, EncodingID: 10}
+			if v == "cmxF10at04" {
+				key = cmap.Key{PlatformID: 0, EncodingID: 4}
+			}
+			tbl[key] = layBadCmap[v]
+			tabs["cmap"] = tbl.Encode()
 		default:
 			panic("unknown font variant " + v)
 		}
@@ -664,6 +676,31 @@ func layFontBytesVar(base string, cm map[uint16]glyph.ID, kernData []byte, varia
 		panic(err)
 	}
 	return buf.Bytes()
+}
+
+// layBadCmap: cmap subtable bodies with a valid format number which cmap.Table.Get cannot decode.
+var layBadCmap = map[string][]byte{
+	"cmxF10":     {0, 10, 0, 0, 0, 0, 0, 22, 0, 0, 0, 0, 0, 0, 0, 65, 0, 0, 0, 1, 0, 5},
+	"cmxF10at04": {0, 10, 0, 0, 0, 0, 0, 22, 0, 0, 0, 0, 0, 0, 0, 65, 0, 0, 0, 1, 0, 5},
+	"cmxF13":     {0, 13, 0, 0, 0, 0, 0, 28, 0, 0, 0, 0, 0, 0, 0, 1, 0, 0, 0, 65, 0, 0, 0, 90, 0, 0, 0, 5},
+	"cmxF8":      {0, 8, 0, 0, 0, 0, 0, 16, 0, 0, 0, 0, 0, 0, 0, 0},
+	"cmxF2":      {0, 2, 0, 12, 0, 0, 0, 0, 0, 0, 0, 0},
+	"cmxTrunc12": {0, 12, 0, 0, 0, 0, 0, 28, 0, 0, 0, 0, 0, 0, 0, 5, 0, 0, 0, 65, 0, 0, 0, 90, 0, 0, 0, 5},
+}
+
+// layStripCmx removes the cmx* tokens: the facts of a case (rune -> gid, widths) are read from the font
+// without the undecodable subtable.
+func layStripCmx(variant string) string {
+	var out []string
+	for _, v := range strings.Split(variant, "+") {
+		if !strings.HasPrefix(v, "cmx") {
+			out = append(out, v)
+		}
+	}
+	if len(out) == 0 {
+		return "-"
+	}
+	return strings.Join(out, "+")
 }
 
 // layFixedByWidths is the property's notion of a fixed-pitch font: all non-zero advance widths equal.
@@ -816,11 +853,16 @@ func layGenText(c *Ctx, i int) {
 	if r.Chance(1, 6) {
 		vs = append(vs, "gpos")
 	}
+	cmx := ""
+	if r.Chance(1, 4) {
+		cmx = Pick(r, []string{"cmxF10", "cmxF13", "cmxF8", "cmxF2", "cmxTrunc12", "cmxF10at04"})
+		vs = append(vs, cmx)
+	}
 	variant := strings.Join(vs, "+")
 	if variant == "" {
 		variant = "-"
 	}
-	font0, err := sfnt.Read(bytes.NewReader(layFontBytesVar(base, cm, nil, variant)))
+	font0, err := sfnt.Read(bytes.NewReader(layFontBytesVar(base, cm, nil, layStripCmx(variant))))
 	if err != nil {
 		panic(fmt.Sprintf("base font does not read: %v", err))
 	}
@@ -874,6 +916,13 @@ func layGenText(c *Ctx, i int) {
 	args := fmt.Sprintf("var="+variant+" base=%s cm=%s kern=%s gsw=%s psw=%s lang=%s text=%s fixed=%s ng=%d map=%s w=%s", base, layShowCm(cm), kernArg,
 		layShowSw(gsw), layShowSw(psw), Pick(r, []string{"en", "de", "ja", "und", "tr"}), layJoin(textInts, ","), fx, ng, mapArg, wArg)
 	out := c.Case(Verdict, "layout.text", args, n >= 2)
+	if cmx != "" {
+		// D: every font sfnt.Read accepts gets a Layouter that maps the text through the best DECODABLE
+		// cmap subtable, with the ligatures / kerning of the same font without the undecodable subtable
+		// (the expected value is computed from that font's facts)
+		c.Case(Direct, "layout.textd", args, n >= 2)
+		c.Stat("text.undecodable_cmap_subtable", cmx+" -> "+strings.SplitN(out, ":", 2)[0])
+	}
 	c.Stat("text.base", base)
 	for _, v := range strings.Split(variant, "+") {
 		c.Stat("text.file_variant", v)
@@ -1881,6 +1930,7 @@ func init() {
 		}))
 	}
 	ops["layout.trivial"] = func(f Fields) string { return "ok" }
+	ops["layout.textd"] = func(f Fields) string { return ops["layout.text"](f) }
 	ops["layout.ligd"] = func(f Fields) string { return "ok" }
 	ops["layout.kern.big"] = func(f Fields) string { return canonPanic(guard(func() string { return layRunKernBig(f) })) }
 	ops["layout.alias"] = func(f Fields) string { return canonPanic(guard(func() string { return layRunAlias(f) })) }
